@@ -123,6 +123,15 @@ fn battery_tags(t: &Tags) {
     let _ = t.get_value(b"d");
     let _ = t.get_value(b"");
     let _ = t.matches(b"e", b"x");
+    // lookups with the names and values the tags themselves hold
+    for i in 0..n.min(40) {
+        if let Some(name) = t.get_string(i, 0) {
+            let _ = t.get_value(name);
+            let v = t.get_string(i, 1).unwrap_or(b"");
+            let _ = t.matches(name, v);
+            let _ = t.matches(v, name);
+        }
+    }
     let _ = t.as_json();
     let _ = format!("{t}");
     let o = t.to_owned();
@@ -841,6 +850,29 @@ pub fn run(args: &Args) -> Report {
             call(&mut rep, &w, Entry::FilterJson, &ft, 4096);
         }
         rep.count("sweep:hex-lengths");
+    }
+
+    // g1b. filters of the shapes the NIP-45 offset extraction looks at (one kind 3 / 7, one #p / #e constraint) whose
+    //      first value is 63..65 bytes long with, at every position, a non-hex ASCII byte or a 2/3/4-byte character
+    //      (raw and as \u escapes) - the accessor reads single bytes of that value
+    if mine(&mut caseno) {
+        for (kind, letter) in [(3, 'p'), (7, 'e'), (3, 'e'), (1, 'p')] {
+            for total in [63usize, 64, 65] {
+                for pos in 0..total {
+                    for (raw, spelled) in [("g", "g"), ("\u{7f}", "\u{7f}"), ("\u{e9}", "\u{e9}"), ("\u{e9}", "\\u00e9"), ("\u{20ac}", "\u{20ac}"), ("\u{20ac}", "\\u20AC"), ("\u{1f600}", "\u{1f600}"), ("\u{1f600}", "\\ud83d\\ude00")] {
+                        if pos + raw.len() > total {
+                            continue;
+                        }
+                        let fill = |n: usize| "0123456789abcdef".chars().cycle().take(n).collect::<String>();
+                        let v = format!("{}{}{}", fill(pos), spelled, fill(total - pos - raw.len()));
+                        let t = format!("{{\"kinds\":[{kind}],\"#{letter}\":[\"{v}\"]}}").into_bytes();
+                        w.set_case(replay_of(Entry::FilterJson, &t, 4096));
+                        call(&mut rep, &w, Entry::FilterJson, &t, 4096);
+                        rep.count("sweep:nip45-shaped-filters");
+                    }
+                }
+            }
+        }
     }
 
     // g2. every kind of `\u` escape at the edges of its ranges (incl. lone and paired surrogates, NUL, the last BMP
